@@ -25,6 +25,43 @@ def compute(run, norm, ax, *args):
     return v.x, ex
 
 
+def ieee_commutativity(run):
+    """IEEE-754: T(a, b) and T(b, a) agree IN DOUBLES (both NaN, or within 1e-12) for all doubles a, b of [0, 1].  The real body is evaluated in z3's Float64
+    theory twice; additions, multiplications, max and min take their operands in a canonical order (they are commutative bit for bit), so a
+    syntactically symmetric body gives the same term twice and the obligation is immediate, while `a > 1.0 - b` against `b > 1.0 - a` is decided by
+    bit-blasting - over the reals the two are the same test, in doubles they differ when a + b rounds to 1."""
+    from pyvc.fpexec import FpExec, F64, fp
+    import ast
+    out = []
+    a, b = z3.FP("a", F64), z3.FP("b", F64)
+    unit = [z3.fpGEQ(a, fp(0.0)), z3.fpLEQ(a, fp(1.0)), z3.fpGEQ(b, fp(0.0)), z3.fpLEQ(b, fp(1.0))]
+    for norm in list(C.TNORMS) + list(C.SNORMS):
+        fq = f"norm.{norm}.compute"
+        if not run.src.has_func("norm", f"{norm}.compute"):
+            continue
+        fn = run.src.func("norm", f"{norm}.compute")
+        names = [x.arg for x in fn.args.args][1:]
+        rp = {"replay": {"module": "contracts.norms", "func": "replay", "kwargs": {"clause": "comm", "norm": norm}, "vars": {}, "fp": {"a": "a", "b": "b"}}, "sat_final": True, "best_effort": True}
+        try:
+            res = []
+            for (u, v) in ((a, b), (b, a)):
+                ex = FpExec({}, u); ex.commute = True
+                res.append(ex.run(fn, env={names[0]: u, names[1]: v}))
+            if res[0] is None or res[1] is None:
+                raise Unsupported("no return value")
+            u, v = res
+            if z3.is_bool(u) or z3.is_bool(v):
+                raise Unsupported("boolean result")
+            goal = z3.BoolVal(True) if u.eq(v) else z3.Or(z3.And(z3.fpIsNaN(u), z3.fpIsNaN(v)), z3.fpLEQ(z3.fpAbs(z3.fpSub(z3.RNE(), u, v)), fp(1e-12)))
+            o = Obl(f"{fq}/ieee.commutative_in_doubles", unit, goal, fn=fq, meta=rp)
+            o.fpvars = {"a": a, "b": b}
+            o.timeout_s = 6          # best effort: a body that is not syntactically symmetric and multiplies needs a bit-blasted multiplier
+            out.append(o)
+        except Unsupported as ex_:
+            out.append(undecided(f"{fq}/ieee.subset", f"outside the floating-point evaluator: {ex_}", fn=fq, meta={"replay": {"module": "contracts.norms", "func": "replay", "kwargs": {"clause": "sampled", "norm": norm}, "vars": {}}, "best_effort": True}))
+    return out
+
+
 def build(run):
     A_ = None
     run.assume("A-REAL", "A-NP", "A-PY", "A-LIFT")
@@ -80,12 +117,11 @@ def build(run):
             if is_t or norm in C.ASSOC_SNORMS:
                 # modular: the inner applications are used through this function's own contract `ensures.range`
                 # (a finite value in [0,1]) -- their value is the code's own symbolic result
-                Tbc, _ = compute(run, norm, ax, b, c)
-                u, w = xr.finite_part(Tab), xr.finite_part(Tbc)
-                l, _ = compute(run, norm, ax, u, c)
-                r, _ = compute(run, norm, ax, a, w)
-                l, r = xr.finite_part(l), xr.finite_part(r)
-                run.add(Obl(f"{fq}/law.assoc", pre3 + [C.unit(A, u, w)], l.v == r.v, fn=fq, meta=rp("assoc", "abc")))
+                # (every application is replaced by the closed form: `ensures.formula` above, applicable to the outer applications because the inner
+                # results lie in [0,1] by `ensures.range`; a lemma about the documented formula, independent of how the body spells it)
+                u, w = xr.finite_part(C.ALL[norm](A, a, b)), xr.finite_part(C.ALL[norm](A, b, c))
+                l, r = xr.finite_part(C.ALL[norm](A, u, c)), xr.finite_part(C.ALL[norm](A, a, w))
+                run.add(Obl(f"{fq}/law.assoc", pre3 + [C.unit(A, u, w)] + ax.axioms(), l.v == r.v, fn=fq, meta=rp("assoc", "abc")))
             if norm in C.DUAL:
                 t = C.DUAL[norm]
                 one = xr.const(1.0)
@@ -94,6 +130,11 @@ def build(run):
         except Unsupported as ex_:
             run.add(undecided(f"{fq}/subset", f"outside the verified subset: {ex_}", fn=fq,
                               meta={"replay": {"module": "contracts.norms", "func": "replay", "kwargs": {"clause": "all", "norm": norm}, "vars": {}}}))
+    run.add(ieee_commutativity(run))
+    ns = 300 if run.tier == "quick" else 4000
+    run.bounded("norm.*.compute/sampled_laws.runtime", "contracts.norms", "replay", [dict(clause="sampled", norm=nm, vals={"seed": run.seed, "n": ns}) for nm in list(C.TNORMS) + list(C.SNORMS)],
+                bound=f"per norm: {ns} x (a complement pair (x, 1-x) in both orders, a pair of random doubles, a pair on the dyadic grid k/64): formula, range, commutativity, "
+                      "min/max bound, monotonicity, duality; a 16x16 grid of special values with identity and annihilator; arrays and broadcasting against the elements one by one")
     # every S-norm with a T-norm of the same family is paired, and vice versa (static)
     run.add(static("norm/dual.pairs", sorted(C.DUAL.values()) == sorted(C.TNORMS), f"dual pairs {C.DUAL}"))
 
